@@ -735,6 +735,28 @@ pub fn scenario_tamper(ctx: &mut Ctx) -> ScResult {
     }
     ctx.st.add("fault.corrupt_byte", nsub);
     let _ = judged;
+    // (b') re-sealed by a non-conforming peer: the HMAC computed over the message *with the length
+    // field as finally sent* (covering what follows the integrity attribute) instead of RFC 8489
+    // s14.5's "length set to the end of the integrity attribute" — a known interoperability mistake;
+    // with anything following the attribute this is not the RFC MAC and must not validate
+    for a in view.all.iter().filter(|a| (a.ty == MI && a.len == 20) || (a.ty == MI256 && a.len == 32)) {
+        let attr_end = a.off + 4 + a.len;
+        if attr_end >= m.len() || a.off + 4 + a.len > end {
+            continue;
+        }
+        let key = creds.reference().key();
+        let mac = if a.ty == MI { refcodec::hmac_sha1(&key, &m[..a.off]) } else { refcodec::hmac_sha256(&key, &m[..a.off]) };
+        let mut x = m.clone();
+        x[a.off + 4..a.off + 4 + a.len].copy_from_slice(&mac[..a.len]);
+        if x == m {
+            continue;
+        }
+        if view.all.last().map(|l| l.ty) == Some(FP) {
+            refcodec::refingerprint(&mut x);
+        }
+        ctx.st.inc("fault.mac_over_final_message_length");
+        tamper(ctx, &x, "integrity attribute re-computed over the final message length", a.off)?;
+    }
     // (c) other keys
     for _ in 0..6 {
         let other = gen_other_creds(ctx.ch, &creds);
